@@ -87,3 +87,30 @@ fn("util/topological.py::find_cycles", props=["C19"], proof=False,
    requires=["all(is_tuple(t, 2) for t in tuples)"],
    c_ensures=["forall(lambda x: (x in result) == on_cycle(tuples, x))"],
    harness="topological.find_cycles")
+
+# ---- find_cycles: SOUNDNESS under proof (every reported node lies on a cycle); completeness is bounded (harness above)
+# R is a rigid ghost relation: any transitive relation that contains the edges (hence the transitive closure): proving
+# R(x, x) for every reported x for arbitrary such R is "x is on a cycle".
+def REL(a, b):
+    return f"(call(R, {a}, {b}) is True)"
+
+
+FC_PRE = ["all(is_tuple(t, 2) for t in tuples)",
+          "forall(lambda p, c: implies(" + EDGE("p", "c") + ", " + REL("p", "c") + "))",
+          "forall(lambda x, y, z: implies(" + REL("x", "y") + " and " + REL("y", "z") + ", " + REL("x", "z") + "))"]
+FC_SOUND = "all(" + REL("x", "x") + " for x in output)"
+FC_EDGES = "forall(lambda p, c: (c in edges[p]) == " + EDGE("p", "c") + ")"
+FC_PATH = "all(all(implies(a < b, " + REL("stack[a]", "stack[b]") + ") for a in range(len(stack))) for b in range(len(stack)))"
+_F[
+    "util/topological.py::find_cycles"].proof = False   # the bounded-only record above stays for the harness (completeness)
+fn("util/topological.py::find_cycles#soundness", props=["C19"],
+   types={"tuples": "seq", "allitems": "seq", "R": "fn", "edges": "ddset", "nodes_to_test": "set", "output": "set", "stack": "list", "todo": "set",
+          "cyc": "seq"},
+   callees={"util.defaultdict": "ddset"},
+   requires=FC_PRE,
+   invariant={0: ["forall(lambda p, c: (c in edges[p]) == any(tuples[j][0] is p and tuples[j][1] is c for j in range(_i)))"],
+              1: [FC_SOUND, FC_EDGES],
+              2: [FC_SOUND, FC_EDGES, FC_PATH],
+              3: [FC_SOUND, FC_EDGES, FC_PATH, "len(stack) > 0 and top is stack[-1]"]},
+   ensures=["all(" + REL("x", "x") + " for x in result)"],
+   returns="set", modifies=[])
